@@ -9,7 +9,8 @@ THEOREMS = ['C19_mul_exact_ok', 'C19_comul_exact_ok', 'C19_deduce_exact_ok', 'C1
 RULE = ("the nine binomial operators and the unlabelled Product2/3 on well-formed operands inside their documented domains: 1/8 grid "
         "(exhaustive pairs in thorough) and random dyadic grids (must never fail), arbitrary non-dyadic floats (every failure is "
         "classified through the hook by rejected label and distance from the admissible set: rounding residue <= 1e-9 vs ill-formed "
-        "result); f32+f64. non-trivial = distinct operand tuple inside the domain")
+        "result); the five binary binomial operators also with variant `alias` (the same object as both operands); f32+f64. "
+        "non-trivial = distinct operand tuple inside the domain")
 EXHAUSTIVE = {}
 LEVEL_TEXT = ("PARTIAL. Proved (Lean): for every self-validating operator the EXACT result is well-formed on the documented domain "
               "(theorems of C06, C10, C12, C13, C14 re-used), so every failure of the implementation other than the listed legitimate "
@@ -77,6 +78,13 @@ def cases(rng, tier):
                     else:   # dogmatic / vacuous float operands and zero base-rate entries (where the product used to yield -inf)
                         ws += G.float_opinion_kind(rng, fmt, n)
                 out.append(G.line(op, fmt, "M." + rng.choice(["o", "r"]), ns, ws))
+        # aliased operands: x op x with the very same object
+        for _ in range(N // 8):
+            r = rng.random()
+            x = rng.choice(grid) if r < 0.3 else G.rand_bop(rng, rng.choice([16, 32, 64])) if r < 0.5 else G.float_bop(rng, fmt)
+            op = rng.choice(["bmul", "bcomul", "bcfuse", "bafuse", "bwfuse"])
+            extra = [rng.choice([Fr(1, 2), Fr(1, 4), rng.random()])] if op in ("bafuse", "bwfuse") else []
+            out.append(G.line(op, fmt, "B.o.alias", [], list(x) + list(x) + extra))
     return out
 
 
